@@ -44,6 +44,7 @@ struct HoldRule {
     nth: u64,    // 1-based among arrivals matching (gate,key); 0 = every arrival
     crash: bool,
     seen: u64,
+    armed: bool, // rules with "armed": false in the plan only start matching after an "arm" step
 }
 
 struct CtlState {
@@ -79,7 +80,7 @@ impl Controller for CtlHandle {
         *st.arrivals.entry(name.to_string()).or_insert(0) += 1;
         let mut hit: Option<(String, bool)> = None;
         for r in st.rules.iter_mut() {
-            if r.gate == name && key_matches(&r.key, key) {
+            if r.armed && r.gate == name && key_matches(&r.key, key) {
                 r.seen += 1;
                 if r.nth == 0 || r.seen == r.nth {
                     hit = Some((r.id.clone(), r.crash));
@@ -363,6 +364,7 @@ fn main() {
                 nth: h["nth"].as_u64().unwrap_or(1),
                 crash: h["crash"].as_bool().unwrap_or(false),
                 seen: 0,
+                armed: h["armed"].as_bool().unwrap_or(true),
             });
         }
     }
@@ -470,6 +472,18 @@ fn main() {
                         }
                     }
                     barrier().await;
+                }
+                "arm" => {
+                    let id = st["id"].as_str().unwrap_or("");
+                    let mut stt = CTL.get().unwrap().st.lock().unwrap();
+                    for r in stt.rules.iter_mut() {
+                        if r.id == id {
+                            r.armed = true;
+                            r.seen = 0;
+                        }
+                    }
+                    drop(stt);
+                    log(json!({"t":"armed","seq":seq(),"step":i,"id":id}));
                 }
                 "release" => {
                     let id = st["id"].as_str().unwrap_or("*");
